@@ -109,6 +109,10 @@ def run_topo(ctx, lines, pend, pp, dp, mp, rng, ranks=None):
     topo = PipeModelDataParallelTopology(num_pp=pp, num_mp=mp, num_dp=dp)
     world = pp * dp * mp
     works = [gen.gen_work(rng, nlayers=rng.choice([1, 2, 3, 5, 9])) for _ in range(pp)]
+    if pp > 1 and rng.random() < 0.35:
+        # a pipeline stage without any registered layer (embedding / norm only, or everything skipped): its ranks still
+        # take part in the collective creation of the peer groups
+        works[rng.randrange(pp)] = {}
     for w in works:
         for l in list(w):
             if 'A' not in w[l]:
